@@ -7,6 +7,7 @@ UNITS = {
     # T0/T1 without split: functions that the shape cannot reach are cut (a cut is an assertion, DESIGN 2.9(2))
     'n_t1': dict(cpp='harness/n_t1.cpp', cdefs=('YK_VAL_CAP=16',), cuts=('delete_ofILb0', 'get_child_of', 'interior_node9delete_of')),
     'n_t1s': dict(cpp='harness/n_t1.cpp', cdefs=('YK_VAL_CAP=16', 'YK_NALLOC=40')),
+    'n_c16': dict(cpp='harness/n_c16.cpp', cdefs=('YK_HAVE_ON_SLEEP', 'YK_HAVE_THREAD_JOIN', 'YK_VAL_CAP=16'), extra_c=('rt/join_epoch_gc.c',), extra_roots=('yk_on_sleep',), sessions=2),
     'k_value': dict(cpp='harness/k_value.cpp', cdefs=('YK_VAL_CAP=48',)),
 }
 
@@ -33,6 +34,11 @@ _T1_BIG = [H('n_t1', 'H_t1_put_n14', 'put into T1(14) (last insert before the no
            H('n_t1s', 'H_t1_put_split', 'put into a FULL root border: border_split + new interior root; map semantics, RI, C12', T1B, tier='thorough', timeout=3400)]
 
 REGISTRY = {
+    'C16': [
+        H('n_c16', 'H_c16_epoch_runs_every_cycle', 'init() from the state ANY number of earlier cycles can leave: slots free/reusable, real epoch_thread body keeps advancing the epoch', 'sessions=2; stop flags/epoch/slot residue arbitrary; 3 epoch periods', tags=(1,)),
+        H('n_c16', 'H_c16_gc_runs_every_cycle', 'init() from any earlier state: real gc_thread body reclaims an eligible retired block and keeps running', 'sessions=2; 2 gc periods', tags=(2,)),
+        H('n_c16', 'H_c16_two_cycles', 'real init(); ops; fin(); init(); fin(): fin terminates (thread bodies return), releases everything even with a session left open, next cycle clean', 'sessions=2; 2 cycles'),
+    ],
     'C02': _T1_GET + _T1_REMOVE + _T1_PUT + _T0_PUT + _T1_BIG,
     'C08': _T1_REMOVE + _T1_PUT + _T0_PUT + _T1_BIG,
     'C12': _T1_PUT + _T0_PUT + _T1_BIG,
@@ -65,6 +71,10 @@ REGISTRY = {
 }
 
 LEVEL_TEXT = {
+    'C16': dict(text='The real init()/fin()/epoch_thread()/gc_thread() bodies are executed symbolically from an ARBITRARY residue of earlier cycles (stop flags, epoch, '
+                     'slot flags symbolic), so one discharged query covers any number of repetitions; a concrete two-cycle run with sessions left open is added.',
+                note='Background threads are modelled by running their real bodies on the calling thread (join = run to completion); std::thread start/join stubbed; '
+                     'storages empty in these harnesses (destroy() with content is under C11/C13). Trusted: clang++-14, ll2c, CBMC+kissat.', ref='DESIGN.md 4/C16'),
     'C02': dict(text='One real put/get/remove call is executed symbolically from an ARBITRARY valid state of each shape in the catalogue '
                      '(contents, operation key/value/flags and a probe key symbolic; topology, entry counts and slot assignment concrete per query) and the '
                      'status, the representation invariant of the post-state and the real get of the probe key are compared with the reference ordered map. '
